@@ -65,6 +65,12 @@ CHECKS = {
    technique="deterministic simulation: full chain over simulated network for matching/replies; BlockList API tasks under a seeded cooperative scheduler with a simulated disk injecting errors and crashes; porcupine linearizability of the API; reference matcher over label lists",
    text="Seeded search over lists (parents/children/wildcards/whitelist/case/escaped dots), a sequential script of API calls and client queries through the whole middleware chain (reply, no upstream packet, no cache effect), and a concurrent script (tasks x schedule x disk fault plan). After every run the persisted local list is compared with the memory states the critical sections left behind (read through the scheduler's lock-release hook), and a fresh BlockList is loaded from the surviving directory. Sampling, not proof.",
    note="Trusts: the verifsync/verifos shims, simdisk's crash model (lose/keep/torn), porcupine, and the reference matcher. The HTTP API layer is bypassed (BlockList methods called directly). The entries '.' and '*.' are not generated."),
+
+ "C17": dict(
+   level="exploration", design="§3 C17",
+   technique="deterministic simulation: whole default chain + resolver over a simulated network; clients placed on prefix boundaries; naive per-prefix reference; upstream packet counting",
+   text="Seeded search over access lists (families, lengths, nesting, host bits, unparsable entries), views and client rate limits, with clients on and next to every prefix boundary (also IPv4-mapped) over UDP and TCP. Denied clients must get no reply and cause no upstream packet; allowed clients must get the zone's (validated) answer for names that need internal sub-queries, or their first matching view's records. Sampling, not proof.",
+   note="Queries enter at Server.ServeMsg (decoded path); the wire ingress path is covered by the W-ing checks. 'Parsable' is netip.ParsePrefix. Cache lookups by denied queries are not observable and are inferred from the absence of a reply and of upstream traffic."),
 }
 
 NOT_APPLICABLE = {
